@@ -29,7 +29,7 @@ SPEC = {
     "build_comp": "certcodec",
     "props": ["props/C03.v"],
     "corr": ["corr/CertCodec_corr.v"],
-    "comps": [{"comp": "certcodec", "n_quick": 2400, "n_thorough": 40000}],
+    "comps": [{"comp": "certcodec", "n_quick": 2000, "n_thorough": 40000}],
     "trusted": ["model/CertCodec.v encode_v2/decode_v2/unmarshal_details/validate_v2, encode_v1/decode_v1 (protobuf-go table-driven decoder: merge of repeated "
                 "Details, packed and unpacked uint32, unknown fields and groups skipped, UTF-8 validation), recombine, sign_v1/sign_v2 are hand-written mirrors "
                 "(tied by correspondence)",
